@@ -2,12 +2,10 @@
 
 import ast
 
-from ..absint import NONE, NOTNONE, TOP, DefaultDomain, Interp, Result, State, exc, val
-from ..astutil import FUNC_TYPES, attr_chain, dotted, norm, walk_shallow
-from ..cfg import live_nodes, node_calls
+from ..absint import NONE, TRUE, State, val
 from ..loader import AnalysisError
-from .common import REAL, TESTCASE, cfg_of, has_kw, kw_value, nodes_calling, own_method, str_const
-from .streammodel import OUTCOMES, handle_status_table, method_to_status, module_const_set, status_map
+from .common import REAL
+from . import streamobjects as so
 
 EXPLANATION = (
     "R-STATUS-TABLES: the method->status map of ExtendedToStreamDecorator and the status->method map "
@@ -28,160 +26,255 @@ EXPLANATION = (
 )
 
 
-class ChunkDomain(DefaultDomain):
-    """Chunks yielded by iter_bytes() are obligations: sent exactly once, in order."""
+TEST_ID = ("const", "pkg.mod.Test.test_it")
+TEST = ("wobj", "test")
+C1, C2, C3 = ("const", b"first "), ("const", b"second"), ("const", b"other")
+T_START, T_END = ("sym", "time-of-start"), ("sym", "time-of-outcome")
+RUN_TAG, TEST_TAG = ("const", "run-tag"), ("const", "test-tag")
+OUTCOMES = ["addSuccess", "addFailure", "addError", "addSkip", "addExpectedFailure", "addUnexpectedSuccess"]
+TRAVELS_AS = {"addSuccess": "success", "addFailure": "fail", "addError": "fail", "addSkip": "skip", "addExpectedFailure": "xfail", "addUnexpectedSuccess": "uxsuccess"}
+REPLAYED_AS = {"addSuccess": "addSuccess", "addFailure": "addFailure", "addError": "addFailure", "addSkip": "addSkip", "addExpectedFailure": "addExpectedFailure",
+               "addUnexpectedSuccess": "addUnexpectedSuccess"}
 
-    def truth(self, v):
-        if isinstance(v, tuple) and v and v[0] == "chunk":
-            return "TF"  # a chunk may be empty bytes
-        return super().truth(v)
 
-    def is_none(self, v):
-        if isinstance(v, tuple) and v and v[0] in ("chunk", "tuple", "name", "content", "details", "chunks"):
-            return "F"
-        return super().is_none(v)
+def tagset(*els):
+    return ("set", ("copy", ("tuple",) + els))
 
-    def iter_kind(self, v):
-        return "unknown"
 
-    def element(self, itervalue, st, node):
-        if itervalue == ("details",):
-            return ("tuple", ("name",), ("content",))
-        if itervalue == ("chunks",):
-            n = st.get("ev.chunk_n", 0)
-            return ("chunk", n, "unsent")
-        return TOP
+class ConversionDomain(so.StreamDomain):
+    """The decorators run as written; the test, the byte sources of its details and the far end (a stream or a result)
+    are symbolic."""
 
-    def iter_step_effect(self, interp, stmt, itervalue, st, fr):
-        if itervalue == ("chunks",):
-            return st.set("ev.chunk_n", (st.get("ev.chunk_n", 0) + 1) % 3)
-        if itervalue == ("details",):
-            return self._close_detail(st).set("ev.in_detail", 1)
-        return None
+    def __init__(self, classes, accepting):
+        def oracle(n, pos, kw):
+            if n == "test.id":
+                return [("val", TEST_ID)]
+            if n.startswith("test."):
+                return [("val", NONE)]
+            return None
+        super().__init__(classes, accepting=accepting, oracle=oracle, lacks={("stream", "current_tags"), ("result", "current_tags")}, log_cap=80,
+                         results={"datetime.datetime.now": [("sym", "the-clock")]}, track=lambda d: d == "datetime.datetime.now")
 
-    def for_done(self, interp, stmt, itervalue, st, fr):
-        if itervalue == ("details",):
-            return self._close_detail(st).set("ev.in_detail", 0)
-        return st
+    def apply(self, interp, fn, pos, kw, st, fr):
+        if isinstance(fn, tuple) and fn[:2] == ("userfn", "chunks"):
+            return [val(("tuple",) + tuple(fn[2]), st)]   # the byte source of a detail: hands out its chunks
+        return super().apply(interp, fn, pos, kw, st, fr)
 
-    @staticmethod
-    def _problem(st, msg):
-        if st.has("ev.problem"):
-            return st
-        return st.set("ev.problem", msg)
 
-    def _close_detail(self, st):
-        if st.get("ev.in_detail", 0) == 1:
-            eof = st.get("ev.eof", 0)
-            if eof != 1:
-                st = self._problem(st, f"a detail ends with {eof} eof=True events (must be exactly one, also when the content yields no chunk)")
-            if st.get("ev.last_was_eof", 0) != 1:
-                st = self._problem(st, "the last file event of a detail does not carry eof=True")
-            for k, v in st.items:
-                if isinstance(v, tuple) and v and v[0] == "chunk" and v[2] == "unsent":
-                    st = self._problem(st, "a chunk yielded by iter_bytes() is never forwarded")
-        st = st.set("ev.eof", 0).set("ev.last_was_eof", 0)
-        # forget chunk values of the finished detail
-        return State(frozenset((k, (NONE if isinstance(v, tuple) and v and v[0] == "chunk" else v)) for k, v in st.items), st.log)
+PLAIN = (("charset", ("const", "utf8")),)
+ODD = (("charset", ("const", "utf8")), ("note", ("const", "a,b")))   # a parameter value with a comma in it
 
-    def rebound(self, old, st, fr):
-        if isinstance(old, tuple) and old and old[0] == "chunk" and old[2] == "unsent":
-            if not any(v == old for _, v in st.items):
-                return self._problem(st, "a chunk is overwritten before it was forwarded (lost chunk)")
-        return st
 
-    def load_attr(self, chain, st, fr):
-        if chain == ["self", "current_tags"]:
-            return ("current-tags",)
-        if len(chain) == 2 and chain[1] == "content_type" and st.get(fr.local(chain[0]), None) == ("content",):
-            return ("ctype",)
-        return None
+def _content(d, st, chunks, params=PLAIN):
+    """A real Content (text/plain with parameters) whose byte source yields ``chunks`` -> (value, state)."""
+    classes = d.ctx.classes
+    ct = d.dom.instantiate(d.it, classes.get("testtools.content_type", "ContentType"), [("const", "text"), ("const", "plain"), ("kwdict", tuple(params))], [], st, d.fr)
+    if len(ct) != 1 or ct[0].kind != "val":
+        raise AnalysisError("anchor vanished: ContentType(primary, sub, parameters) cannot be constructed")
+    c = d.dom.instantiate(d.it, classes.get("testtools.content", "Content"), [ct[0].value, ("userfn", "chunks", tuple(chunks))], [], ct[0].state, d.fr)
+    if len(c) != 1 or c[0].kind != "val":
+        raise AnalysisError("anchor vanished: Content(content_type, get_bytes) cannot be constructed")
+    return c[0].value, c[0].state
 
-    def call(self, interp, call, st, fr):
-        d = dotted(call.func)
-        argexprs = list(call.args) + [k.value for k in call.keywords]
-        if d == "self._now" and not call.args:
-            return [val(("now",), st)]
-        if d == "repr" and len(call.args) == 1:
-            return [r if r.kind == "exc" else val(("repr", r.value), r.state) for r in interp.eval(call.args[0], st, fr)]
-        if isinstance(call.func, ast.Attribute) and call.func.attr == "id" and not call.args and st.get(fr.local(dotted(call.func.value) or "?"), None) == ("the-test",):
-            return [val(("test-id",), st)]
-        if d and d.endswith(".items") and not call.args:
-            out = []
-            for r in interp.eval(call.func.value, st, fr):
-                out.append(r if r.kind == "exc" else val(("details",), r.state))
-            return out
-        if d and d.endswith(".iter_bytes"):
-            return [val(("chunks",), st)]
-        if d == "_b" or (d == "bytes" and not call.args):
-            n = st.get("ev.chunk_n", 0)
-            return [val(("chunk", "e%d" % n, "unsent"), st.set("ev.chunk_n", (n + 1) % 3))]
-        if d == "self.status":
-            out = []
-            for r in interp.eval_list([k.value for k in call.keywords], st, fr):
-                if r.kind == "exc":
-                    out.append(r)
-                    continue
-                kws = {k.arg: v for k, v in zip(call.keywords, r.value)}
-                s = r.state
-                is_file = "file_name" in kws
-                is_final = "test_status" in kws
-                if call.args:
-                    s = self._problem(s, "an event is sent with positional arguments")
-                if kws.get("test_id") != ("test-id",):
-                    s = self._problem(s, "an event does not carry test.id() as test_id")
-                if kws.get("timestamp") != ("now",):
-                    s = self._problem(s, "an event does not carry the timestamp taken from self._now() for this outcome")
-                if is_file and s.get("ev.in_detail", 0) == 1:
-                    if kws.get("file_name") != ("name",):
-                        s = self._problem(s, "a file event of a detail does not carry the detail's own name")
-                    if kws.get("mime_type") != ("repr", ("ctype",)):
-                        s = self._problem(s, "the content type of a detail (repr(content.content_type)) is not sent with its chunks")
-                if is_final:
-                    if kws.get("test_status") != ("param-status",):
-                        s = self._problem(s, "the final event does not carry the outcome's status")
-                    if kws.get("test_tags") != ("current-tags",):
-                        s = self._problem(s, "the final event does not carry the current tags")
-                if is_file:
-                    fb = kws.get("file_bytes", NONE)
-                    if s.get("ev.final", 0) > 0:
-                        s = self._problem(s, "a file event is emitted after the final status event")
-                    if isinstance(fb, tuple) and fb and fb[0] == "chunk":
-                        if fb[2] == "sent":
-                            s = self._problem(s, "a chunk is forwarded twice")
-                        else:
-                            sent = ("chunk", fb[1], "sent")
-                            s = State(frozenset((k, (sent if v == fb else v)) for k, v in s.items), s.log)
-                    elif fb == NONE and s.get("ev.in_detail", 0) == 1:
-                        s = self._problem(s, "a file event of a detail is emitted with file_bytes=None")
-                    if s.get("ev.in_detail", 0) == 1:
-                        if s.get("ev.eof", 0) >= 1:
-                            s = self._problem(s, "a file event follows the eof event of the same detail")
-                        eof = kws.get("eof", "False")
-                        if eof == "True":
-                            s = s.set("ev.eof", min(s.get("ev.eof", 0) + 1, 2)).set("ev.last_was_eof", 1)
-                        elif eof == "False":
-                            s = s.set("ev.last_was_eof", 0)
-                        else:
-                            s = self._problem(s, "eof is not a constant on a detail's file event")
-                    s = s.note(("file-event", call.lineno))
-                if is_final:
-                    s = s.set("ev.final", min(s.get("ev.final", 0) + 1, 2)).note(("final-status", call.lineno))
-                    if s.get("ev.in_detail", 0) == 1:
-                        s = self._problem(s, "the final status is emitted while a detail is still being sent")
-                out.append(val(NONE, s))
-                out.append(exc(("target raised",), s))
-            return out
-        hit = interp.auto_inline(call, st, fr, getattr(self, "classes", None))
-        if hit is not None:
-            return hit
-        out = []
-        for r in interp.eval_list([a.value if isinstance(a, ast.Starred) else a for a in argexprs], st, fr):
-            out.append(r if r.kind == "exc" else val(TOP, r.state))
-        return out
 
-    def store_subscript(self, target, value, st, fr, interp):
-        return st
+def _drive(ctx, far_end, outcome, details_spec, reason=None, with_times=True):
+    """Feed one bracketed test into ExtendedToStreamDecorator -> runs.  far_end: "stream" (a symbolic StreamResult) or
+    "result" (the stream is consumed by a real StreamToExtendedDecorator over a symbolic TestResult)."""
+    classes = ctx.classes
+    etsd = classes.get(REAL, "ExtendedToStreamDecorator")
+    dom = ConversionDomain(classes, accepting=("stream", "result"))
+    d = so.Driver(ctx, etsd, dom, depth=18)
+    st = State()
+    if far_end == "stream":
+        target = ("wobj", "stream")
+    else:
+        made = dom.instantiate(d.it, classes.get(REAL, "StreamToExtendedDecorator"), [("wobj", "result")], [], st, d.fr)
+        if len(made) != 1 or made[0].kind != "val":
+            raise AnalysisError("anchor vanished: StreamToExtendedDecorator(result) cannot be constructed")
+        target, st = made[0].value, made[0].state
+    details = NONE
+    if details_spec is not None:
+        items = []
+        for name, chunks in details_spec:
+            cv, st = _content(d, st, chunks, ODD if name == "last" else PLAIN)
+            items.append((name, cv))
+        details = ("kwdict", tuple(items))
+    runs = d.construct([target], state=st)
+    runs = d.call(runs, "startTestRun")
+    runs = d.call(runs, "tags", [tagset(RUN_TAG), tagset()])
+    if with_times:
+        runs = d.call(runs, "time", [T_START])
+    runs = d.call(runs, "startTest", [TEST])
+    runs = d.call(runs, "tags", [tagset(TEST_TAG), tagset()])
+    if with_times:
+        runs = d.call(runs, "time", [T_END])
+    kw = [("details", details)] if outcome != "addSkip" else [("reason", reason if reason is not None else NONE), ("details", details)]
+    runs = d.call(runs, outcome, [TEST], kw)
+    runs = d.call(runs, "stopTest", [TEST])
+    runs = d.call(runs, "stopTestRun")
+    d.done()
+    return d, runs
+
+
+def _events(r):
+    return [dict(kw, **{"<positional>": pos} if pos else {}) for n, pos, kw, tag in so.logged(r, "stream.") if n == "status"]
+
+
+def _tags_of(d, v):
+    els = d.dom._set_elements(v) if isinstance(v, tuple) and v[:1] == ("set",) else None
+    return None if els is None else sorted(x[1] for x in els if isinstance(x, tuple) and x[:1] == ("const",))
+
+
+def check_stream_side(ctx):
+    """What a StreamResult behind ExtendedToStreamDecorator receives for one test."""
+    etsd = ctx.classes.get(REAL, "ExtendedToStreamDecorator")
+    Q = f"{REAL}:ExtendedToStreamDecorator"
+    MIME = ("const", 'text/plain; charset="utf8"')
+    spec = [("first", (C1, C2)), ("empty", ()), ("last", (C3,))]
+    for outcome in OUTCOMES:
+        d, runs = _drive(ctx, "stream", outcome, spec if outcome != "addSkip" else None, reason=("const", "not today"))
+        chunks, fields, tables = set(), set(), set()
+        for r in runs:
+            if r.kind == "exc":
+                tables.add(f"{outcome} raises {r.value!r}")
+                continue
+            evs = _events(r)
+            if any("<positional>" in e for e in evs):
+                fields.add("an event passes fields positionally")
+            for e in evs:
+                if e.get("test_id") != TEST_ID:
+                    fields.add(f"an event carries test_id={e.get('test_id', 'nothing')!r} instead of test.id()")
+            ip = [e for e in evs if e.get("test_status") == ("const", "inprogress")]
+            finals = [e for e in evs if e.get("test_status") not in (None, NONE, ("const", "inprogress"))]
+            files = [e for e in evs if e.get("file_name") not in (None, NONE)]
+            if len(ip) != 1 or evs[:1] != ip:
+                tables.add(f"the stream does not begin with exactly one 'inprogress' event for the test ({len(ip)} sent)")
+            elif ip[0].get("timestamp") != T_START:
+                fields.add(f"the 'inprogress' event carries timestamp={ip[0].get('timestamp', 'nothing')!r}; expected the time supplied before startTest")
+            if len(finals) != 1 or evs[-1:] != finals:
+                chunks.add(f"{len(finals)} final status events are sent and the last event of the test is {'not ' if evs[-1:] != finals else ''}the final one: expected exactly one, after every file event")
+            else:
+                fin = finals[0]
+                if fin.get("test_status") != ("const", TRAVELS_AS[outcome]):
+                    tables.add(f"{outcome} travels as {fin.get('test_status')!r}; documented: {TRAVELS_AS[outcome]!r}")
+                if _tags_of(d, fin.get("test_tags")) != ["run-tag", "test-tag"]:
+                    fields.add(f"the final event carries test_tags={fin.get('test_tags', 'nothing')!r}; expected the tags current at the outcome (run-tag, test-tag)")
+                if fin.get("timestamp") != T_END:
+                    fields.add(f"the final event carries timestamp={fin.get('timestamp', 'nothing')!r}; expected the time supplied before the outcome")
+            want_files = [("first", C1, False), ("first", C2, True), ("empty", ("const", b""), True), ("last", C3, True)] if outcome != "addSkip" else [("reason", ("const", b"not today"), True)]
+            got_files = [(e.get("file_name")[1] if isinstance(e.get("file_name"), tuple) else e.get("file_name"), e.get("file_bytes"), e.get("eof") == TRUE) for e in files]
+            if got_files != want_files:
+                chunks.add(f"the file events are {got_files}; expected {want_files} (every chunk once, in order; eof exactly on the last chunk of each detail; an empty detail as one empty eof chunk)")
+            for e in files:
+                if e.get("timestamp") != T_END:
+                    fields.add("a file event does not carry the time of the outcome")
+                want_mime = (MIME if e.get("file_name") != ("const", "last") else ("const", 'text/plain; charset="utf8"; note="a,b"')) if outcome != "addSkip" else None
+                if want_mime is not None and e.get("mime_type") != want_mime:
+                    fields.add(f"a file event carries mime_type={e.get('mime_type', 'nothing')!r}; expected the detail's own content type {want_mime[1]!r}")
+                if want_mime is None and not (isinstance(e.get("mime_type"), tuple) and e["mime_type"][:1] == ("const",) and str(e["mime_type"][1]).startswith("text/plain")):
+                    fields.add(f"the skip reason travels with mime_type={e.get('mime_type', 'nothing')!r}; expected text/plain")
+        where = f"{outcome} with three details" if outcome != "addSkip" else "addSkip with a reason"
+        ctx.check("R-CHUNK-OBLIGATIONS", f"{where}: every chunk once and in order, eof on each detail's last chunk, one final status last", etsd.node, bool(runs) and not chunks,
+                  "; ".join(sorted(chunks)) or "no path returns", examined=len(runs), construct=f"{Q}.{outcome}::chunks")
+        ctx.check("R-EVENT-FIELDS", f"{where}: every event carries the test id, its time, name / bytes / content type; the final one the status and the current tags", etsd.node,
+                  bool(runs) and not fields, "; ".join(sorted(fields)) or "no path returns", examined=len(runs), construct=f"{Q}.{outcome}::fields")
+        ctx.check("R-STATUS-TABLES", f"{outcome} travels as {TRAVELS_AS[outcome]!r}, bracketed by one 'inprogress' event", etsd.node, bool(runs) and not tables,
+                  "; ".join(sorted(tables)) or "no path returns", examined=len(runs), construct=f"{Q}.{outcome}::round-trip")
+    # no supplied times: the clock is asked, and a test that was never started still gets its run started
+    d, runs = _drive(ctx, "stream", "addSuccess", None, with_times=False)
+    problems = set()
+    for r in runs:
+        if r.kind == "exc":
+            problems.add(f"raises {r.value!r}")
+            continue
+        for e in _events(r):
+            if e.get("timestamp") != ("sym", "the-clock"):
+                problems.add(f"without time() calls an event carries timestamp={e.get('timestamp', 'nothing')!r} instead of the current time")
+    ctx.check("R-EVENT-FIELDS", "without supplied times every event is stamped with the current time", etsd.node, bool(runs) and not problems, "; ".join(sorted(problems)) or "no path returns",
+              examined=len(runs), construct=f"{Q}::clock")
+
+
+def check_round_trip(ctx):
+    """TestResult calls -> stream -> StreamToExtendedDecorator -> TestResult calls: one bracket, same everything."""
+    sted = ctx.classes.get(REAL, "StreamToExtendedDecorator")
+    Q = f"{REAL}:StreamToExtendedDecorator"
+    spec = [("first", (C1, C2)), ("empty", ()), ("last", (C3,))]
+    for outcome in OUTCOMES:
+        d, runs = _drive(ctx, "result", outcome, spec if outcome != "addSkip" else None, reason=("const", "not today"))
+        problems, tables = set(), set()
+        for r in runs:
+            if r.kind == "exc":
+                tables.add(f"the round trip of {outcome} raises {r.value!r}")
+                continue
+            calls_ = so.logged(r, "result.")
+            names = [c_[0] for c_ in calls_]
+            core = [n for n in names if n in ("startTest", "stopTest") or n.startswith("add")]
+            if core != ["startTest", REPLAYED_AS[outcome], "stopTest"]:
+                (tables if len(core) == 3 and core[0] == "startTest" and core[2] == "stopTest" else problems).add(
+                    f"the result sees {core}; expected one bracket startTest, {REPLAYED_AS[outcome]}, stopTest")
+                continue
+            i0, i1, i2 = names.index("startTest"), names.index(REPLAYED_AS[outcome]), names.index("stopTest")
+            for c_ in (calls_[i0], calls_[i1], calls_[i2]):
+                obj = d.dom.describe(d.it, c_[1][0], r.state, d.fr) if c_[1] else None
+                fields = dict(obj[2]) if isinstance(obj, tuple) and obj[:1] == ("object",) else {}
+                if fields.get("_test_id") != TEST_ID:
+                    problems.add(f"{c_[0]} is replayed for a test with id {fields.get('_test_id', '?')!r} instead of the original id")
+            times = [c_[1] for c_ in calls_ if c_[0] == "time"]
+            if times != [(T_START,), (T_END,)] or not (names.index("time") < i0 < len(names) - 1 - names[::-1].index("time") < i1):
+                problems.add(f"the times replayed are {times} at positions that do not bracket startTest: expected the start time before startTest and the time of the outcome before the outcome")
+            tag_calls = [(i, c_) for i, c_ in enumerate(calls_) if c_[0] == "tags"]
+            before = [_tags_of(d, c_[1][0]) for i, c_ in tag_calls if i < i0 and c_[1]]
+            if before != [["run-tag", "test-tag"]]:
+                problems.add(f"before startTest the result is told the tags {before}; expected the test's tags (run-tag, test-tag) once")
+            after = [_tags_of(d, c_[1][1]) for i, c_ in tag_calls if i > i2 and len(c_[1]) > 1]
+            if after != [["run-tag", "test-tag"]]:
+                problems.add(f"after stopTest the tags removed are {after}; expected the same tags, so that they do not leak into the next test")
+            det = d.dom.describe(d.it, dict(calls_[i1][2]).get("details", calls_[i1][1][1] if len(calls_[i1][1]) > 1 else None), r.state, d.fr)
+            got = {}
+            for k, v in (det[1] if isinstance(det, tuple) and det[:1] == ("kwdict",) else ()):
+                ct = dict(v[1][2]) if isinstance(v, tuple) and v[:1] == ("content",) and isinstance(v[1], tuple) and v[1][:2] == ("object", "ContentType") else {}
+                joined = b"".join(x[1] for x in (v[2] or ()) if isinstance(x, tuple) and x[:1] == ("const",) and isinstance(x[1], bytes)) if isinstance(v, tuple) and v[:1] == ("content",) else None
+                got[k] = (ct.get("type"), ct.get("subtype"), ct.get("parameters"), joined)
+            text_utf8 = (("const", "text"), ("const", "plain"), ("kwdict", PLAIN))
+            want = {"first": text_utf8 + (b"first second",), "last": (("const", "text"), ("const", "plain"), ("kwdict", ODD), b"other")} if outcome != "addSkip" else {"reason": text_utf8 + (b"not today",)}
+            got = {k: v[:2] + (("kwdict", tuple(sorted(v[2][1]))) if isinstance(v[2], tuple) and v[2][:1] == ("kwdict",) else v[2],) + v[3:] for k, v in got.items()}
+            if got != want:
+                problems.add(f"the outcome is replayed with the details {got}; expected every non-empty detail with the same bytes and the same content type: {want}")
+        ctx.check("R-REPLAY-ORDER", f"round trip of {outcome}: one bracket with the same id, times, tags and details", sted.node, bool(runs) and not problems and not tables,
+                  "; ".join(sorted(problems | tables)) or "no path returns", examined=len(runs), construct=f"{Q}::round-trip {outcome}")
+        ctx.check("R-STATUS-TABLES", f"{outcome} is replayed as {REPLAYED_AS[outcome]}", sted.node, bool(runs) and not tables, "; ".join(sorted(tables)) or "no path returns", examined=len(runs),
+                  construct=f"{REAL}:_status_map::{outcome}")
+
+
+def check_incomplete_replay(ctx):
+    """Tests a stream never finished (left 'inprogress', or only attachments seen) are replayed as failures when the run stops."""
+    classes = ctx.classes
+    sted = classes.get(REAL, "StreamToExtendedDecorator")
+    dom = ConversionDomain(classes, accepting=("result",))
+    d = so.Driver(ctx, sted, dom, depth=18)
+    runs = d.call(d.construct([("wobj", "result")]), "startTestRun")
+    runs = d.call(runs, "status", kw=so.event(("const", "pkg.hung"), status=("const", "inprogress"), ts=T_START))
+    runs = d.call(runs, "status", kw=so.event(("const", "pkg.files-only"), file_name=("const", "log"), file_bytes=C1, mime=("const", "text/plain"), ts=T_START))
+    runs = d.call(runs, "status", kw=so.event(("const", "pkg.announced"), status=("const", "exists"), ts=T_START))
+    runs = d.call(runs, "stopTestRun")
+    d.done()
+    problems = set()
+    for r in runs:
+        if r.kind == "exc":
+            problems.add(f"raises {r.value!r}")
+            continue
+        calls_ = so.logged(r, "result.")
+        seen = {}
+        for c_ in calls_:
+            if c_[0].startswith("add") and c_[1]:
+                obj = d.dom.describe(d.it, c_[1][0], r.state, d.fr)
+                fields = dict(obj[2]) if isinstance(obj, tuple) and obj[:1] == ("object",) else {}
+                seen[fields.get("_test_id")] = c_[0]
+        want = {("const", "pkg.hung"): "addFailure", ("const", "pkg.files-only"): "addFailure"}
+        if seen != want:
+            problems.add(f"at stopTestRun the outcomes replayed are {seen}; expected the hung test and the attachments-only test as failures, the announcement not at all")
+    ctx.check("R-STATUS-TABLES", "tests left 'inprogress' or 'unknown' are replayed as failures when the run stops; 'exists' announcements are not tests", sted.node, bool(runs) and not problems,
+              "; ".join(sorted(problems)) or "no path returns", examined=len(runs), construct=f"{REAL}:_status_map::failing")
 
 
 def run(ctx):
@@ -189,199 +282,8 @@ def run(ctx):
     ctx.rule("R-CHUNK-OBLIGATIONS", "every chunk forwarded exactly once in order; exactly one trailing eof per detail; reason and one final status last")
     ctx.rule("R-EVENT-FIELDS", "every event carries the fields the consumer needs")
     ctx.rule("R-REPLAY-ORDER", "PlaceHolder.run / StreamToExtendedDecorator replay each record once in protocol order")
-    classes = ctx.classes
-    m = ctx.repo.module(REAL)
-
-    # ------------------------------------------------------------------ status tables
-    m2s = method_to_status(ctx)
-    s2m, smap_node = status_map(ctx)
-    hs, hs_node = handle_status_table(ctx)
-    states = module_const_set(m, "STATES")
-    finals = module_const_set(m, "FINAL_STATES")
-    interim = module_const_set(m, "INTERIM_STATES")
-    if states is None or finals is None or interim is None:
-        raise AnalysisError("anchor vanished: STATES / FINAL_STATES / INTERIM_STATES are no longer simple frozensets")
-    documented = {"addError": "addFailure", "addFailure": "addFailure", "addSuccess": "addSuccess", "addSkip": "addSkip",
-                  "addExpectedFailure": "addExpectedFailure", "addUnexpectedSuccess": "addUnexpectedSuccess"}
-    for meth in OUTCOMES:
-        status, call, f = m2s[meth]
-        back = s2m.get(status)
-        ctx.check("R-STATUS-TABLES", f"{meth} -> {status!r} -> {back}", call, back == documented[meth],
-                  f"{meth} travels as {status!r} and is replayed as {back} (documented: {documented[meth]})",
-                  construct=f"{REAL}:ExtendedToStreamDecorator.{meth}::round-trip")
-        ctx.check("R-STATUS-TABLES", f"{meth} emits a member of STATES", call, status in states, f"{status!r} is not in STATES", construct=f"{REAL}:ExtendedToStreamDecorator.{meth}::in-states")
-    need = (finals | {"inprogress"}) - {"exists"}
-    ctx.check("R-STATUS-TABLES", "_status_map covers every final state but 'exists', plus 'inprogress'", smap_node, set(s2m) == set(need),
-              f"_status_map keys {sorted(set(s2m))}; needed {sorted(need)}", construct=f"{REAL}:_status_map::keys")
-    ctx.check("R-STATUS-TABLES", "_status_map values are outcome methods", smap_node, set(s2m.values()) <= set(OUTCOMES), f"{sorted(set(s2m.values()) - set(OUTCOMES))}",
-              construct=f"{REAL}:_status_map::values")
-    failing_statuses = {"fail", "unknown", "inprogress", "uxsuccess"}
-    bad = {s: mm for s, mm in s2m.items() if (s in failing_statuses) != (mm in ("addFailure", "addError", "addUnexpectedSuccess"))}
-    ctx.check("R-STATUS-TABLES", "failing / incomplete statuses replay as failing outcomes and only those", smap_node, not bad,
-              f"{bad}: a failing or incomplete test would be replayed as passing (or vice versa)", construct=f"{REAL}:_status_map::failing")
-    ctx.check("R-STATUS-TABLES", "StreamSummary dispatch covers every _status_map key plus 'exists'", hs_node, set(hs) == set(s2m) | {"exists"},
-              f"_handle_status keys {sorted(hs)}", construct=f"{REAL}:StreamSummary._handle_status::keys")
-    ss = classes.get(REAL, "StreamSummary")
-    ctx.check("R-STATUS-TABLES", "every dispatch entry is a method of StreamSummary", hs_node, all(ss.own_method(v) is not None for v in hs.values()),
-              f"{[v for v in hs.values() if ss.own_method(v) is None]}", construct=f"{REAL}:StreamSummary._handle_status::methods")
-    st_f = own_method(ctx, REAL, "ExtendedToStreamDecorator", "startTest")
-    lit = [str_const(kw_value(c, "test_status")) for c in walk_shallow(st_f, include_self=False) if isinstance(c, ast.Call) and dotted(c.func) == "self.status"]
-    ctx.check("R-STATUS-TABLES", "startTest emits 'inprogress' (an interim state)", st_f, lit == ["inprogress"] and "inprogress" in interim, f"startTest emits {lit}",
-              construct=f"{REAL}:ExtendedToStreamDecorator.startTest::inprogress")
-    alias_ok = classes.get(REAL, "ExtendedToStreamDecorator").aliases.get("addFailure") is not None or "addFailure" in classes.get(REAL, "ExtendedToStreamDecorator").methods
-    ctx.floor("R-STATUS-TABLES", 15)
-
-    # ------------------------------------------------------------------ chunk obligations
-    conv = own_method(ctx, REAL, "ExtendedToStreamDecorator", "_convert")
-    dom = ChunkDomain()
-    dom.classes = classes
-    it = Interp(dom, max_depth=5)
-    st0 = State([("ev.eof", 0), ("ev.final", 0), ("ev.in_detail", 0), ("ev.chunk_n", 0), ("ev.last_was_eof", 0)])
-    cparams = [a.arg for a in conv.args.args][1:]
-    cargs = {}
-    if "test" in cparams:
-        cargs["test"] = ("the-test",)
-    if "status" in cparams:
-        cargs["status"] = ("param-status",)
-    res = it.analyze(conv, cargs, st0, receiver=classes.get(REAL, "ExtendedToStreamDecorator"), name="_convert")
-    ctx.stats["states"] += it.steps
-    ctx.analysed(conv)
-    normal = [r for r in res if r.kind == "val"]
-    problems = {}
-    for r in normal:
-        p = r.state.get("ev.problem", None)
-        if p:
-            problems.setdefault(p, r)
-        fin = r.state.get("ev.final", 0)
-        if fin != 1 and not p:
-            problems.setdefault(f"{fin} final status events are emitted (must be exactly one)", r)
-    ctx.check("R-CHUNK-OBLIGATIONS", f"_convert: {len(normal)} abstract exit states, all obligations discharged", conv, not problems and len(normal) >= 1,
-              "; ".join(problems) if problems else "no abstract exit state", examined=len(res),
-              path=[f"{e[0]} (line {e[1]})" for r in list(problems.values())[:1] for e in r.state.log], construct=f"{REAL}:ExtendedToStreamDecorator._convert::obligations")
-    for p, r in problems.items():
-        ctx.check("R-CHUNK-OBLIGATIONS", f"_convert: {p[:70]}", conv, False, f"ExtendedToStreamDecorator._convert: {p}",
-                  path=[f"{e[0]} (line {e[1]})" for e in r.state.log], construct=f"{REAL}:ExtendedToStreamDecorator._convert::{p[:60]}")
-    # structure: the eof call is outside the chunk loop, the look-ahead send inside it
-    g = cfg_of(ctx, conv)
-    lv = live_nodes(g)
-    sends = [c for c in walk_shallow(conv, include_self=False) if isinstance(c, ast.Call) and dotted(c.func) == "self.status"]
-    file_sends = [c for c in sends if has_kw(c, "file_name")]
-    final_sends = [c for c in sends if has_kw(c, "test_status")]
-    ctx.check("R-CHUNK-OBLIGATIONS", "one final status call, after every file event", conv,
-              len(final_sends) == 1 and all(c.lineno < final_sends[0].lineno for c in file_sends) and not any(
-                  isinstance(p, (ast.For, ast.While, ast.If)) for p in _ancestors(final_sends[0], conv)),
-              "the final status event is conditional, repeated or precedes a file event", construct=f"{REAL}:ExtendedToStreamDecorator._convert::final-last")
-    reason_sends = [c for c in file_sends if str_const(kw_value(c, "file_name")) == "reason"]
-    ok = len(reason_sends) == 1 and str_const(kw_value(reason_sends[0], "mime_type")) is not None and "text/plain" in str_const(kw_value(reason_sends[0], "mime_type")) \
-        and isinstance(kw_value(reason_sends[0], "eof"), ast.Constant) and kw_value(reason_sends[0], "eof").value is True and "encode" in norm(kw_value(reason_sends[0], "file_bytes"))
-    ctx.check("R-CHUNK-OBLIGATIONS", "skip reason travels as a complete text/plain 'reason' file", conv, ok,
-              "the reason is not sent as one eof=True text/plain file named 'reason'", construct=f"{REAL}:ExtendedToStreamDecorator._convert::reason")
-    sk = own_method(ctx, REAL, "ExtendedToStreamDecorator", "addSkip")
-    c = [c for c in walk_shallow(sk, include_self=False) if isinstance(c, ast.Call) and dotted(c.func) == "self._convert"]
-    ok = len(c) == 1 and len(c[0].args) == 5 and dotted(c[0].args[4]) == "reason" and dotted(c[0].args[2]) == "details"
-    ctx.check("R-CHUNK-OBLIGATIONS", "addSkip hands reason and details to _convert", sk, ok, "addSkip drops the reason or the details", construct=f"{REAL}:ExtendedToStreamDecorator.addSkip::args")
-    for meth in OUTCOMES:
-        status, call, f = m2s[meth]
-        params = [a.arg for a in f.args.args[1:]]
-        a2 = dotted(call.args[2]) if len(call.args) > 2 else None
-        a1 = dotted(call.args[1]) if len(call.args) > 1 else None
-        ok = dotted(call.args[0]) == "test" and a2 == "details" and (a1 == "err" if "err" in params else isinstance(call.args[1], ast.Constant))
-        ctx.check("R-CHUNK-OBLIGATIONS", f"{meth} hands test, err and details to _convert", call, ok, f"{norm(call)[:70]} drops an argument", construct=f"{REAL}:ExtendedToStreamDecorator.{meth}::args")
-
-    # ------------------------------------------------------------------ event fields
-    # (ids, timestamps, names, mime types and the final event's status/tags are compared as values on the
-    #  abstract run above: a missing or wrong field is one of the obligations' problems)
-    field_problems = [p_ for p_ in problems if "event" in p_ and ("carry" in p_ or "positional" in p_ or "content type" in p_)]
-    ctx.check("R-EVENT-FIELDS", "every event carries test.id(), one timestamp; file events the detail's name and repr(content_type); the final event status and current tags",
-              conv, not field_problems and len(normal) >= 1, "; ".join(field_problems), construct=f"{REAL}:ExtendedToStreamDecorator._convert::field-values")
-    tb = [n for n in walk_shallow(conv, include_self=False) if isinstance(n, ast.Assign) and isinstance(n.targets[0], ast.Subscript) and str_const(n.targets[0].slice) == "traceback"]
-    ok = len(tb) == 1 and "TracebackContent(err, test)" in norm(tb[0].value) and any(isinstance(p, ast.If) and norm(p.test) == "err is not None" for p in _ancestors(tb[0], conv))
-    ctx.check("R-EVENT-FIELDS", "an exc_info outcome is sent as a 'traceback' detail", conv, ok, "err is not converted into a traceback detail", construct=f"{REAL}:ExtendedToStreamDecorator._convert::traceback")
-    g2 = cfg_of(ctx, st_f)
-    lv2 = live_nodes(g2)
-    lazy = [n.id for n in g2.nodes if n.id in lv2 and n.kind == "test" and norm(n.ast.test) == "not self._started"]
-    emit = nodes_calling(g2, lambda c: dotted(c.func) == "self.status", lv2)
-    ok = bool(lazy) and len(emit) == 1 and g2.dominated_by(emit[0], set(lazy)) and any(dotted(c.func) == "self.startTestRun" for s in g2.nodes[lazy[0]].ast.body for c in walk_shallow(s) if isinstance(c, ast.Call))
-    ctx.check("R-EVENT-FIELDS", "startTest starts the run lazily before emitting 'inprogress'", st_f, ok, "inprogress can be emitted before startTestRun", construct=f"{REAL}:ExtendedToStreamDecorator.startTest::lazy-start")
-    c = [c for c in walk_shallow(st_f, include_self=False) if isinstance(c, ast.Call) and dotted(c.func) == "self.status"]
-    ok = len(c) == 1 and norm(kw_value(c[0], "test_id")) == "test.id()" and norm(kw_value(c[0], "timestamp")) == "self._now()"
-    ctx.check("R-EVENT-FIELDS", "inprogress event carries test id and timestamp", st_f, ok, "inprogress event lacks id/timestamp", construct=f"{REAL}:ExtendedToStreamDecorator.startTest::fields")
-    tm = own_method(ctx, REAL, "ExtendedToStreamDecorator", "time")
-    nowf = own_method(ctx, REAL, "ExtendedToStreamDecorator", "_now")
-    ok = any(isinstance(n, ast.Assign) and norm(n.targets[0]).endswith("__now") and dotted(n.value) == tm.args.args[1].arg for n in ast.walk(tm)) and any(
-        isinstance(r, ast.Return) and norm(r.value).endswith("__now") for r in ast.walk(nowf))
-    ctx.check("R-EVENT-FIELDS", "supplied time() values are used as event timestamps", tm, ok, "time() no longer feeds _now()", construct=f"{REAL}:ExtendedToStreamDecorator.time::feeds-now")
-    ctx.floor("R-EVENT-FIELDS", 8)
-
-    # ------------------------------------------------------------------ replay
-    ph = own_method(ctx, TESTCASE, "PlaceHolder", "run")
-    g = cfg_of(ctx, ph)
-    lv = live_nodes(g)
-    seq = []
-    for n in sorted((n for n in g.nodes if n.id in lv and n.kind in ("stmt", "test")), key=lambda n: n.line):
-        for c in sorted(node_calls(n), key=lambda c: (c.lineno, c.col_offset)):
-            d = dotted(c.func)
-            if d and d.startswith("result.") or d == "outcome" or d == "getattr":
-                seq.append(d.split(".")[-1] if d != "getattr" else "getattr:" + norm(c.args[1]))
-    want = ["time", "tags", "startTest", "time", "getattr:self._outcome", "outcome", "stopTest", "tags"]
-    ctx.check("R-REPLAY-ORDER", "PlaceHolder.run: time, tags, startTest, time, outcome, stopTest, tags", ph, seq == want, f"PlaceHolder.run makes the calls {seq}",
-              construct=f"{TESTCASE}:PlaceHolder.run::sequence")
-    oc = [c for c in walk_shallow(ph, include_self=False) if isinstance(c, ast.Call) and dotted(c.func) == "outcome"]
-    ok = len(oc) == 1 and dotted(oc[0].args[0]) == "self" and dotted(kw_value(oc[0], "details")) == "self._details"
-    ctx.check("R-REPLAY-ORDER", "the stored outcome is reported with the stored details", ph, ok, "outcome(self, details=self._details) changed", construct=f"{TESTCASE}:PlaceHolder.run::outcome")
-    times = [c for c in walk_shallow(ph, include_self=False) if isinstance(c, ast.Call) and dotted(c.func) == "result.time"]
-    ok = len(times) == 2 and norm(times[0].args[0]) == "self._timestamps[0]" and norm(times[1].args[0]) == "self._timestamps[1]" and all(
-        isinstance(t._parent._parent, ast.If) and "is not None" in norm(t._parent._parent.test) for t in times)
-    ctx.check("R-REPLAY-ORDER", "start/stop timestamps are replayed when known", ph, ok, "timestamps are not replayed as time(first) ... time(last)", construct=f"{TESTCASE}:PlaceHolder.run::times")
-    ht = own_method(ctx, REAL, "StreamToExtendedDecorator", "_handle_tests")
-    calls = [norm(c) for c in walk_shallow(ht, include_self=False) if isinstance(c, ast.Call)]
-    ok = calls == ["test_record.to_test_case()", "case.run(self.decorated)"] and not any(isinstance(x, (ast.If, ast.For, ast.While, ast.Try)) for x in walk_shallow(ht, include_self=False))
-    ctx.check("R-REPLAY-ORDER", "each record's placeholder is run exactly once against the adapted target", ht, ok, f"_handle_tests does {calls}", construct=f"{REAL}:StreamToExtendedDecorator._handle_tests::once")
-    init = own_method(ctx, REAL, "StreamToExtendedDecorator", "__init__")
-    ok = any(isinstance(n, ast.Assign) and dotted(n.targets[0]) == "self.decorated" and norm(n.value) == "ExtendedToOriginalDecorator(decorated)" for n in ast.walk(init)) and any(
-        isinstance(n, ast.Assign) and dotted(n.targets[0]) == "self.hook" and norm(n.value) == "_StreamToTestRecord(self._handle_tests)" for n in ast.walk(init))
-    ctx.check("R-REPLAY-ORDER", "target adapted with ExtendedToOriginalDecorator; records come from _StreamToTestRecord", init, ok, "StreamToExtendedDecorator wiring changed", construct=f"{REAL}:StreamToExtendedDecorator.__init__::wiring")
-    ttc = own_method(ctx, REAL, "_TestRecord", "to_test_case")
-    ph_calls = [c for c in ast.walk(ttc) if isinstance(c, ast.Call) and dotted(c.func) == "PlaceHolder"]
-    ok = False
-    if len(ph_calls) == 1:
-        c = ph_calls[0]
-        kws = {k.arg: norm(k.value) for k in c.keywords}
-        ok = norm(c.args[0]) == "self.id" and kws == {"outcome": "outcome", "details": "self.details", "tags": "self.tags", "timestamps": "self.timestamps"} and any(
-            isinstance(n, ast.Assign) and dotted(n.targets[0]) == "outcome" and norm(n.value) == "_status_map[self.status]" for n in ast.walk(ttc))
-    ctx.check("R-REPLAY-ORDER", "record -> PlaceHolder keeps id, mapped outcome, details, tags, timestamps", ttc, ok, "to_test_case drops or renames a field", construct=f"{REAL}:_TestRecord.to_test_case::fields")
-    # ------------------------------------------------------------------ mime parameters pass through the re-parse
-    from .common import module_function
-    mct = module_function(ctx, REAL, "_make_content_type")
-    ctx.analysed(mct)
-    pvar = None
-    for n in walk_shallow(mct, include_self=False):
-        if isinstance(n, ast.Assign) and isinstance(n.targets[0], ast.Tuple) and "params" in norm(n.value):
-            pvar = dotted(n.targets[0].elts[-1])
-        if isinstance(n, ast.Assign) and isinstance(n.targets[0], ast.Name) and ".params" in norm(n.value):
-            pvar = n.targets[0].id
-    rets = [r for r in walk_shallow(mct, include_self=False) if isinstance(r, ast.Return)]
-    ok = pvar is not None and len(rets) == 1 and isinstance(rets[0].value, ast.Call) and dotted(rets[0].value.func) == "ContentType" and len(rets[0].value.args) == 3 and dotted(rets[0].value.args[2]) == pvar
-    ctx.check("R-EVENT-FIELDS", "_make_content_type rebuilds the ContentType with all parsed parameters", mct, ok,
-              "the parameters parsed from the mime string are not all handed to ContentType", construct=f"{REAL}:_make_content_type::params-kept")
-    rewrites = []
-    for n in walk_shallow(mct, include_self=False):
-        if isinstance(n, (ast.Assign, ast.AugAssign, ast.Delete)):
-            for t in (n.targets if not isinstance(n, ast.AugAssign) else [n.target]):
-                if isinstance(t, ast.Subscript) and dotted(t.value) == pvar:
-                    rewrites.append((n, str_const(t.slice)))
-        if isinstance(n, ast.Call) and isinstance(n.func, ast.Attribute) and dotted(n.func.value) == pvar and n.func.attr in ("pop", "clear", "update", "popitem", "setdefault"):
-            rewrites.append((n, f".{n.func.attr}()"))
-    bad = [k for _, k in rewrites if k != "charset"]
-    ctx.check("R-EVENT-FIELDS", "the only parameter _make_content_type rewrites is the legacy 'charset' workaround", mct, not bad,
-              f"_make_content_type rewrites parameter(s) {bad}: a content type parameter would not survive the conversion unchanged", construct=f"{REAL}:_make_content_type::only-charset")
-    ctx.assume("sinks do not reorder events; the email parser's handling of the rendered MIME string is a value property and is not decided")
-
-
-def _ancestors(node, stop):
-    out = []
-    n = getattr(node, "_parent", None)
-    while n is not None and n is not stop:
-        out.append(n)
-        n = getattr(n, "_parent", None)
-    return out
+    check_stream_side(ctx)
+    check_round_trip(ctx)
+    check_incomplete_replay(ctx)
+    ctx.floor("R-STATUS-TABLES", 12)
+    ctx.assume("the email package parses a MIME header the way it does in the analysing interpreter (constant headers are folded through it)")
